@@ -63,11 +63,16 @@ def explorer(mode, arg=None, seed="0"):
     env = dict(os.environ)
     env["PYTHONHASHSEED"] = str(seed)
     env["PDPY11_VERIF"] = "1"
+    # the explorer's scratch directory lives inside this run's scratch root, which the engine removes at the end
+    scratch = tempfile.mkdtemp(prefix="c18-", dir=os.environ.get("PDPMC_SCRATCH_ROOT") or ("/dev/shm" if os.path.isdir("/dev/shm") else None))
+    env["PDPMC_C18_SCRATCH"] = scratch
     env.pop("PDPMC_SCRATCH_ROOT", None)
-    env.pop("PDPMC_C18_SCRATCH", None)
     cmd = [sys.executable, "-m", "pdpmc.c18_explorer", mode] + ([json.dumps(arg)] if arg is not None else [])
-    p = subprocess.run(cmd, cwd=os.path.dirname(os.path.dirname(os.path.dirname(os.path.abspath(__file__)))), env=env,
-                       stdout=subprocess.PIPE, stderr=subprocess.PIPE, timeout=1700)
+    try:
+        p = subprocess.run(cmd, cwd=os.path.dirname(os.path.dirname(os.path.dirname(os.path.abspath(__file__)))), env=env,
+                           stdout=subprocess.PIPE, stderr=subprocess.PIPE, timeout=1700)
+    finally:
+        shutil.rmtree(scratch, ignore_errors=True)
     if p.returncode != 0:
         raise RuntimeError("explorer failed: %s" % p.stderr.decode()[-1500:])
     return json.loads(p.stdout.decode())
